@@ -140,7 +140,8 @@ def wholerow(sym, N, ncols, dom, bs=None):
 # --------------------------------------------------------------------------
 BOUNDS = {
     'quick': 'n in [0,3] rows (symbolic); keys None|int, unbounded int, None|int|str, compound (None|int in [0,2))^2 n<=3; '
-             'whole-row keys with 1-2 columns; buffersize {None,1,2}; count column on/off; conflicts with include/exclude',
+             'whole-row keys with 1-2 columns; buffersize {None,1,2}; count column on/off; conflicts with include/exclude and a declared '
+             'missing marker; key given as index 0; hash-colliding keys for isunique; cross-type representative keys',
     'thorough': 'n in [0,4] (run lengths 1, 2, >2 and two runs of 2)',
 }
 OUTSIDE = 'ragged rows (statement: rectangular); more rows than the bound; presorted=True (C11)'
